@@ -21,6 +21,7 @@ type FuncResult struct {
 	Notes    []string
 	Err      string
 	Assumed  bool
+	Missing  bool // the contract names a function that does not exist in this tree
 	Callees  []string // verified callee contracts this function's proof relies on
 	entryEnv *Env
 }
@@ -43,6 +44,7 @@ func (e *Engine) verifyFunc(key string) (res *FuncResult) {
 	fn := e.funcs[key]
 	if fn == nil || fn.Blocks == nil {
 		res.Err = "contract names a function that does not exist (or has no body): " + key
+		res.Missing = true
 		return
 	}
 	x := &Exec{eng: e, fn: fn, c: c, key: calleeShort(key), ordinals: map[*ssa.Function]map[ssa.Instruction]map[string]int{},
